@@ -317,6 +317,14 @@ func (g *treeGen) gen(depth int) *node {
 		k, v := genAttrKV(g.t, g.attrs)
 		n.attrs = append(n.attrs, quotedAttr(k, v))
 	}
+	if rapid.IntRange(0, 7).Draw(g.t, "unquotedSolidus") == 0 {
+		// a last attribute whose unquoted value ends in a solidus (<object data=x/>, <iframe
+		// src=https://example.com/embed/>): conforming HTML, a start tag with the solidus in the value
+		k, _ := genAttrKV(g.t, g.attrs)
+		if !strings.ContainsAny(k, " \t\n\f\r\"'=<>/`\x00") {
+			n.attrs = append(n.attrs, k+"="+rapid.SampledFrom([]string{"x/", "/p/", "https://example.com/embed/", "/", "a//"}).Draw(g.t, "unquotedSolidusVal"))
+		}
+	}
 	if voidEls[el] {
 		// a void element written with an end tag (<img></img>): every NON-void element is still
 		// properly opened and closed. Not for br: </br> is read as <br>.
@@ -373,6 +381,9 @@ func (n *node) write(sb *strings.Builder) {
 		sb.WriteString(" " + a)
 	}
 	if n.selfClosed {
+		if k := len(n.attrs); k > 0 && !strings.HasSuffix(n.attrs[k-1], `"`) {
+			sb.WriteString(" ") // keep the solidus out of an unquoted value
+		}
 		sb.WriteString("/>")
 		if voidEls[n.el] && n.voidEnd {
 			sb.WriteString("</" + n.el + ">")
